@@ -44,6 +44,14 @@ def generate(rng, tier, index):
     T = spec["steps"]
     spec["init_seed"] = int(rng.integers(0, 2**31)) if rng.uniform() < 0.5 else None
     spec["loop"] = {"replica": int(rng.integers(0, 2)), "cut": int(rng.integers(1, T)) if rng.uniform() < 0.7 else None}
+    # one scene in five: a uniform plane source becomes the hard (field-overwriting) plane source of
+    # fdtdx.objects.sources.source, which writes a complex carrier's real part into the fields
+    hard = bool(rng.uniform() < 0.2)
+    for s in spec["sources"]:
+        if hard and s["kind"] == "uniform_plane":
+            s["kind"] = "hard_plane"
+            s.pop("profile", None)
+    rp.add_dispersive_boxes(rng, spec, 0.3, per_axis=not [s for s in spec["sources"] if s["kind"] != "dipole"])
     return spec
 
 
@@ -89,6 +97,8 @@ def execute(spec):
     if cplx != [False, True]:
         raise rp.env.HarnessError(f"storage modes not as requested: {cplx}")
     stats["probe_complex"] = 1
+    stats["probe_hard_plane_source"] = int(any(s["kind"] == "hard_plane" for s in spec["sources"]))
+    stats["probe_dispersive"] = int(bool(spec["materials"].get("disp_objects")))
 
     arrays = [s.arrays for s in scenes]
     steppers = [dr.Stepper(s) for s in scenes]
